@@ -32,6 +32,12 @@ func NewMutexMap() *MutexMap {
 // This method will never return nil and Unlock() must be called
 // to release the lock when done.
 func (m *MutexMap) Lock(key interface{}) Unlocker {
+	return m.lock(key, nil)
+}
+
+// lock acquires the lock like Lock. If the lock is held by somebody else,
+// onContention is invoked once before the call starts to wait.
+func (m *MutexMap) lock(key interface{}, onContention func()) Unlocker {
 	// read or create entry for this key atomically
 	m.ml.Lock()
 	e, ok := m.ma[key]
@@ -43,7 +49,12 @@ func (m *MutexMap) Lock(key interface{}) Unlocker {
 	m.ml.Unlock()
 
 	// acquire lock, will block here until e.cnt==1
-	e.el.Lock()
+	if !e.el.TryLock() {
+		if onContention != nil {
+			onContention()
+		}
+		e.el.Lock()
+	}
 
 	return e
 }
